@@ -547,7 +547,8 @@ pub fn gen(cfg: &Cfg) -> Vec<String> {
     let mut ops = Vec::new();
     // MPD's tag names from the harness's own table, NOT derived from the library under test (a name
     // table that went wrong there must not also change what the server is simulated to send)
-    let names: Vec<String> = crate::tags::MPD_TAG_NAMES.iter().map(|s| s.to_string()).collect();
+    // (plus song attributes of newer servers that are tags to this library: `Added`)
+    let names: Vec<String> = crate::tags::MPD_TAG_NAMES.iter().map(|s| s.to_string()).chain(["Added".to_string(), "added".to_string()]).collect();
     let bvals = boundary_values();
     let f = |k: &str, v: &str| (k.as_bytes().to_vec(), v.as_bytes().to_vec());
 
